@@ -340,7 +340,7 @@ func c03GenEvents(t *rapid.T, c *c03Case, totalWrites int, targets []uint32) {
 func TestC03Detection(t *testing.T) {
 	kit.Run(t, kit.Spec[c03Case]{
 		Prop: "C03",
-		Rule: "a packet-scan command (arp, icmp, udp, tcp syn/fin/null/xmas/--flags; icmp and udp also with probe-shaping options --type/--code/--ttl/--payload/--ipflags) in a CLI mode (subnet; file of pairs; file x ports; >200 ranges => chunks; raw-IP mode) on the virtual wire, which runs the exact BPF text sx installs; 1..40 frames injected as reactions to probe writes (or right after the filter is installed): own-protocol frames whose source is a target / a subnet edge (base-1, base, last, last+1) / anything and whose source port is inside a range of the open chunk / start-1 / end+1 / a range of another chunk / anything, with all TCP flag sets, IP and TCP options, payloads, every ICMP type/code, TTLs; and other traffic (udp, ipv6, vlan, IP-in-IP, other protocols, ARP). All well-formed and unfragmented. Oracle: shape.Classify (independent decoder) decides which injected frames must be reported; stdout JSON records = one per such frame with that frame's fields (multiset; documented don't-cares optional). A verdict that fails with the short exit delay is re-decided with a 3 s exit delay (timing artefacts are discarded as inconclusive). non-trivial: >=1 reply-shaped and >=1 non-reply frame; distinct by case",
+		Rule: "a packet-scan command (arp, icmp, udp, tcp syn/fin/null/xmas/--flags; icmp and udp also with probe-shaping options --type/--code/--ttl/--payload/--ipflags) in a CLI mode (subnet; file of pairs; file x ports; >200 ranges => chunks; one case in twelve a single target with wide nested / overlapping / touching ranges up to port 65535; raw-IP mode) on the virtual wire, which runs the exact BPF text sx installs; 1..40 frames injected as reactions to probe writes (or right after the filter is installed): own-protocol frames whose source is a target / a subnet edge (base-1, base, last, last+1) / anything and whose source port is inside a range of the open chunk / start-1 / end+1 / a range of another chunk / anything, with all TCP flag sets, IP and TCP options, payloads, every ICMP type/code, TTLs; and other traffic (udp, ipv6, vlan, IP-in-IP, other protocols, ARP). All well-formed and unfragmented. Oracle: shape.Classify (independent decoder) decides which injected frames must be reported; stdout JSON records = one per such frame with that frame's fields (multiset; documented don't-cares optional). A verdict that fails with the short exit delay is re-decided with a 3 s exit delay (timing artefacts are discarded as inconclusive). non-trivial: >=1 reply-shaped and >=1 non-reply frame; distinct by case",
 		Gen: func(t *rapid.T) c03Case {
 			c := c03Case{Cmd: rapid.SampledFrom(c01PacketCmds).Draw(t, "cmd"), Seed: rapid.Int64().Draw(t, "seed"), ExitMs: 120}
 			base := strings.Fields(c.Cmd)[0]
@@ -356,6 +356,18 @@ func TestC03Detection(t *testing.T) {
 			}
 			c.Spec = genSpec(t, cmdPortless(base), base != "arp", 1500)
 			c.Spec.Exclude = nil
+			if !cmdPortless(base) && rapid.IntRange(0, 11).Draw(t, "wide-port-ranges") == 0 {
+				// one target, wide ranges that nest, overlap or touch each other and reach the end of the port space
+				// (the receive filter is built from the list of ranges)
+				a := uint32(kit.UniformInt64(t, "wbase", 1<<24, 0xdfffffff))
+				c.Spec = gram.Spec{CIDR: gram.U32String(a)}
+				for _, r := range rapid.SampledFrom([][][2]int{
+					{{1, 1024}, {1025, 65535}}, {{1, 10000}, {8000, 65535}}, {{49152, 65535}, {1, 49151}}, {{60000, 65535}, {65535, 65535}},
+					{{1, 65535}}, {{65000, 65535}, {64000, 65100}}, {{1, 1024}, {80, 80}}, {{100, 200}, {201, 300}, {150, 250}}, {{65534, 65535}, {1, 2}, {3, 65533}},
+				}).Draw(t, "wide") {
+					c.Spec.Ports = append(c.Spec.Ports, gram.PortRange{Start: uint16(r[0]), End: uint16(r[1])})
+				}
+			}
 			if base != "arp" {
 				c.VPN = rapid.Bool().Draw(t, "vpn")
 			}
